@@ -1,5 +1,5 @@
 from pyvc.runner import Prop, Fn, Lem, Ground, Native
-from props.rewrite_common import ASSUMPTIONS, SEM_ASSUMPTIONS, SEM_LEMMAS
+from props.rewrite_common import ASSUMPTIONS, SEM_ASSUMPTIONS, SEM_LEMMAS, C09_LEMMAS
 
 _R = 'hpl.rewrite.'
 PROP = Prop(
@@ -7,8 +7,7 @@ PROP = Prop(
     modules=['contracts.rewrite_c09'],
     tasks=[
         *[Lem(l) for l in SEM_LEMMAS],
-        Lem('valid_conj_operands'), Lem('valid_snoc'), Lem('valid_append'), Lem('valid_unit'), Lem('valid_last'),
-        Lem('out_snoc'), Lem('out_append'), Lem('out_unit'),
+        *[Lem(l) for l in C09_LEMMAS],
         Fn(_R + 'empty_test', safety_tag='C14'),
         Fn(_R + '_split_and_quantifier', safety_tag='C14'),
         Fn(_R + '_split_and_not', safety_tag='C14'),
